@@ -1,4 +1,300 @@
+(* C10 - The Edit widget behaves as a text editor model for any key sequence.
+   Only statements here; every proof is [exact <lemma>] into Proofs/EditProofs.v and
+   Proofs/EditLayoutProofs.v.  The model (Model/Edit.v) is hand-written from urwid/widget/edit.py,
+   urwid/numedit.py and text_layout.calc_coords / calc_line_pos / calc_pos / shift_line and is tied
+   to the code by the per-event correspondence of the harness.  Everything is str mode (lists of
+   code points).  [cw] = str_util.get_char_width and [upper] = str.upper are parameters; the layout
+   of the displayed text is DATA carried by each event (any layout whatsoever in the theorems of
+   part 1, a layout row of a stated shape in part 2). *)
 From Coq Require Import ZArith List Bool.
-From Urwid Require Import PyBase Edit.
-Theorem stub : True. Proof. exact I. Qed.
-Print Assumptions stub.
+Import ListNotations.
+From Urwid Require Import PyBase Edit EditSpec EditProofs EditLayoutProofs.
+Open Scope Z_scope.
+
+(* ===== part 1: every history of events, arbitrary layout data ===== *)
+
+(* --- pos_inv: the offset is between 0 and the text length after every event of every history,
+       from every initial widget (any caption, text, requested position, flags, mask, variant) --- *)
+Theorem pos_inv :
+  forall cw upper cap txt p ml tab mk v es,
+    Forall (fun o => 0 <= pos (fst (fst o)) <= zlen (text (fst (fst o))))
+           (snd (run cw upper (init cap txt p ml tab mk v) es)).
+Proof. intros. exact (proj1 (pos_inv_run cw upper es _ (init_inv cap txt p ml tab mk v))). Qed.
+Print Assumptions pos_inv.
+
+Theorem pos_inv_any_state :
+  forall cw upper es s, Inv s ->
+    Forall (fun o => Inv (fst (fst o))) (snd (run cw upper s es)) /\ Inv (fst (run cw upper s es)).
+Proof. intros cw upper es s. exact (pos_inv_run cw upper es s). Qed.
+Print Assumptions pos_inv_any_state.
+
+(* --- edit_refines_ref: after EVERY event of EVERY history the model's state (text, offset,
+       preferred column, view flags) and the returned value are those of the reference editor
+       EditSpec.ref_step: insert at the cursor, delete the character before / after, move by one,
+       go to a column of a display row; leading zeros vanish in the numeric variants.
+       Simulation by induction over the event list.  Keys: printable / multi-character / unused
+       key strings, tab, enter, left, right, up, down, backspace, delete, home, end; clicks with any
+       button; renders; get_pref_col; set_edit_pos. --- *)
+Theorem edit_refines_ref :
+  forall cw upper es s, Inv s ->
+    map (fun o => (fst (fst o), snd o)) (snd (run cw upper s es)) = ref_run cw upper s es.
+Proof. intros cw upper es s. exact (refines_run cw upper es s). Qed.
+Print Assumptions edit_refines_ref.
+
+Theorem edit_refines_ref_from_init :
+  forall cw upper cap txt p ml tab mk v es,
+    map (fun o => (text (fst (fst o)), pos (fst (fst o)), snd o))
+        (snd (run cw upper (init cap txt p ml tab mk v) es))
+    = map (fun o => (text (fst o), pos (fst o), snd o))
+          (ref_run cw upper (init cap txt p ml tab mk v) es).
+Proof.
+  intros. rewrite <- (refines_run cw upper es _ (init_inv cap txt p ml tab mk v)).
+  rewrite map_map. reflexivity.
+Qed.
+Print Assumptions edit_refines_ref_from_init.
+
+(* one event, spelled out: the reference step, the signal chain, no signal when unhandled *)
+Theorem edit_step_refines_ref :
+  forall cw upper s e, Inv s ->
+    let '(s', sg, r) := step cw upper s e in
+    ref_step cw upper s e = (s', r) /\ chain (text s) sg (text s') /\
+    (r = Ok RUnhandled -> sg = []) /\ Inv s'.
+Proof. exact step_ref. Qed.
+Print Assumptions edit_step_refines_ref.
+
+(* --- signals_order: along every history, the signals of each event form a chain
+       change(new_1) [text still old], postchange(old) [text already new_1], change(new_2), ...
+       from the text before the event to the text after it; in particular a changed text was
+       announced, and an event that changes nothing and is unhandled emits nothing --- *)
+Theorem signals_order :
+  forall cw upper es s, Inv s ->
+    all_steps (fun s0 o => chain (text s0) (snd (fst o)) (text (fst (fst o))) /\
+                           (snd o = Ok RUnhandled -> snd (fst o) = []))
+              s (snd (run cw upper s es)).
+Proof. intros cw upper es s. exact (signals_run cw upper es s). Qed.
+Print Assumptions signals_order.
+
+(* --- unhandled_returned --- *)
+(* (a) whatever the key: if keypress returns it, text and offset are untouched and nothing was signalled *)
+Theorem unhandled_returned :
+  forall cw upper s k w lay, Inv s ->
+    snd (keypress cw upper s k w lay) = Ok RUnhandled ->
+    text (fst (fst (keypress cw upper s k w lay))) = text s /\
+    pos (fst (fst (keypress cw upper s k w lay))) = pos s /\
+    snd (fst (keypress cw upper s k w lay)) = [].
+Proof. exact unhandled_untouched. Qed.
+Print Assumptions unhandled_returned.
+
+(* (b) the keys the editor has no use for (a key string the variant's filter rejects - function
+       keys, control characters, multi-character names -, tab without allow_tab, enter without
+       multiline) come back and the whole state is untouched *)
+Theorem unused_keys_come_back :
+  forall cw upper s k w lay,
+    match k with
+    | KText cs => valid_char cw upper s cs = Ok false
+    | KTab => allow_tab s = false
+    | KEnter => multiline s = false
+    | _ => False
+    end ->
+    keypress cw upper s k w lay = (s, [], Ok RUnhandled).
+Proof. exact unused_keys_returned. Qed.
+Print Assumptions unused_keys_come_back.
+
+(* --- numeric_alphabet_inv --- *)
+(* IntEdit: digits only, along every history *)
+Theorem numeric_alphabet_inv_IntEdit :
+  forall cw upper es s,
+    var s = VInt -> allow_tab s = false -> multiline s = false ->
+    num_ok int_alpha false (text s) = true -> Inv s ->
+    Forall (fun o => num_ok int_alpha false (text (fst (fst o))) = true) (snd (run cw upper s es)).
+Proof. intros cw upper es s. exact (numeric_alphabet_int cw upper es s). Qed.
+Print Assumptions numeric_alphabet_inv_IntEdit.
+
+(* NumEdit / IntegerEdit / FloatEdit: every character has its ASCII upper case in [allowed], apart
+   from one leading '-' when negatives are allowed - PROVIDED str.upper maps nothing foreign into
+   the allowed string (upper_honest). *)
+Theorem numeric_alphabet_inv_NumEdit :
+  forall cw upper es s al tr ng,
+    var s = VNum al tr ng -> upper_honest upper al ->
+    allow_tab s = false -> multiline s = false ->
+    num_ok (num_alpha al) ng (text s) = true -> Inv s ->
+    Forall (fun o => num_ok (num_alpha al) ng (text (fst (fst o))) = true) (snd (run cw upper s es)).
+Proof. intros cw upper es s al tr ng. exact (numeric_alphabet_num cw upper es s al tr ng). Qed.
+Print Assumptions numeric_alphabet_inv_NumEdit.
+
+(* The statement WITHOUT the hypothesis on upper is the property's clause for the real widget; it is
+   false as soon as upper maps U+017F to "S", which str.upper does (IntegerEdit(base=36) accepts
+   the key and value() raises): the harness replays this witness on the implementation and
+   reports it (known finding C10-numedit-upper). *)
+Definition numeric_alphabet_inv_full (cw : Z -> Z) (upper : Z -> list Z) : Prop :=
+  numeric_alphabet_statement cw upper.
+Theorem numeric_alphabet_inv_refuted :
+  forall cw upper, upper 383 = [83] -> ~ numeric_alphabet_inv_full cw upper.
+Proof. exact numeric_alphabet_refuted. Qed.
+Print Assumptions numeric_alphabet_inv_refuted.
+
+(* the hypothesis is satisfiable: an ASCII-only upper-casing is honest for every allowed string *)
+Theorem upper_hypothesis_satisfiable : forall al, upper_honest (fun c => [ascii_upper c]) al.
+Proof. exact upper_honest_ascii. Qed.
+Print Assumptions upper_hypothesis_satisfiable.
+
+(* the leading-zero loop of IntEdit / NumEdit never runs out of the fuel the model gives it *)
+Theorem trim_loop_has_fuel :
+  forall s sg, Inv s -> exists r, trim_loop (Z.to_nat (pos s)) s sg = Ok r.
+Proof. exact trim_fuel. Qed.
+Print Assumptions trim_loop_has_fuel.
+
+(* ===== part 2: what the layout maps compute (layout rows of a stated shape) ===== *)
+
+(* --- cursor_cell: if the view shows the cursor offset somewhere (find_row: first segment that
+       covers it; column = columns of the segments before + width of the segment's text before the
+       offset), a focused render reports exactly that cell --- *)
+Theorem cursor_cell :
+  forall cw upper s w lay xy,
+    find_row cw (disp s) (get_line_translation cw (look s) w lay) (pos s + zlen (caption s)) 0 = Some xy ->
+    snd (get_cursor_coords cw s w lay) = xy /\
+    snd (step cw upper s (ERender true w lay))
+      = Ok (RCoords (fst xy) (snd xy) (zlen (get_line_translation cw (look s) w lay))).
+Proof. exact edit_cursor_cell. Qed.
+Print Assumptions cursor_cell.
+
+(* --- the view of a focused Edit keeps the cursor inside the w columns: shown at column x of row y
+       by the layout => shown, and drawn, at column clamp(x, 0, w-1) of row y (any wrap mode) --- *)
+Theorem cursor_visible :
+  forall cw s w lay x y,
+    1 <= w ->
+    find_row cw (disp s) lay (pos s + zlen (caption s)) 0 = Some (x, y) ->
+    find_row cw (disp s) (get_line_translation cw (look s) w lay) (pos s + zlen (caption s)) 0
+      = Some (clampz x 0 (w - 1), y)
+    /\ snd (get_cursor_coords cw s w lay) = (clampz x 0 (w - 1), y).
+Proof. exact edit_cursor_visible. Qed.
+Print Assumptions cursor_visible.
+
+(* --- click_cell: the clicked row of the view is [pad] pre ++ SText sc o e :: post with non-negative
+       widths in pre, the segment is as wide as its text, p is one of its characters and col is any of
+       the columns of p's cell: button 1 puts the cursor on p (relative to the caption, clamped), returns
+       True and remembers the column --- *)
+Theorem click_cell :
+  forall cw upper s w lay col row p x0 c,
+    let view := get_line_translation cw s w lay in
+    snd (position_coords cw s w lay 0) <= row < zlen view ->
+    0 <= row ->
+    cell_in_row cw (disp s) (nth (Z.to_nat row) view []) p x0 c ->
+    (exists ch, nthz (disp s) p = Some ch /\ x0 + c <= col < x0 + c + cw ch) ->
+    step cw upper s (EClick 1 col row w lay) =
+    (with_pref (put s (text s) (clampz (p - zlen (caption s)) 0 (zlen (text s)))) (Some (PInt col, w)),
+     [], Ok (RBool true)).
+Proof. exact edit_click_cell. Qed.
+Print Assumptions click_cell.
+
+(* the same for the bare layout map used by up / down with a preferred column *)
+Theorem column_to_offset :
+  forall cw t (lay : layout) row p x0 c col,
+    0 <= row < zlen lay ->
+    cell_in_row cw t (nth (Z.to_nat row) lay []) p x0 c ->
+    (exists ch, nthz t p = Some ch /\ x0 + c <= col < x0 + c + cw ch) ->
+    calc_pos cw t lay (PInt col) row = Ok p.
+Proof. exact calc_pos_cell. Qed.
+Print Assumptions column_to_offset.
+
+(* --- home / end of a display row --- *)
+Theorem row_home :
+  forall cw t pads s r,
+    forallb is_pad pads = true -> is_pad s = false ->
+    calc_line_pos cw t (pads ++ s :: r) PLeft =
+    Ok (match s with SHint _ o => Some o | SText _ o _ => Some o | SPad _ => None end).
+Proof. exact row_start. Qed.
+Print Assumptions row_home.
+
+Theorem row_end_at_removed_character :
+  forall cw t pre sc o, calc_line_pos cw t (pre ++ [SHint sc o]) PRight = Ok (Some o).
+Proof. exact row_end_hint. Qed.
+Print Assumptions row_end_at_removed_character.
+
+Theorem row_end_on_last_character :
+  forall cw t pre sc o e p ch,
+    nthz t p = Some ch -> 0 <= o <= p -> p < e -> chars_ok cw t o e ->
+    calc_width cw t o p <= sc - 1 < calc_width cw t o p + cw ch ->
+    calc_line_pos cw t (pre ++ [SText sc o e]) PRight = Ok (Some p).
+Proof. exact row_end_text. Qed.
+Print Assumptions row_end_on_last_character.
+
+(* ===== what is NOT proved here (oracle / correspondence only) =====
+   - bytes mode and other encodings ("never inside a multi-byte character"): the statement below is
+     checked by the harness oracle on a separate bytes stream (utf-8, euc-jp, big5, latin-1). *)
+Definition pos_inv_bytes_full : Prop :=
+  forall (decode_ok : list Z -> bool) (text_bytes : list Z) (offset : Z),
+    (* for every reachable (text, offset) of a bytes-mode Edit: both halves decode *)
+    decode_ok (takez offset text_bytes) = true /\ decode_ok (dropz offset text_bytes) = true.
+(* - the drawn canvas: the cursor cell of the rendered canvas holds the character at the offset,
+     rows() == canvas rows, render never raises (oracle on every render event).
+   - that the layout data has the shape assumed in part 2 is C03's subject; the oracle builds its own
+     cell map from the layout structure and compares.
+   - highlight: not covered (never non-None through the modelled API; AST-scanned every run). *)
+
+(* ===== non-vacuity ===== *)
+Definition cw0 (c : Z) : Z := if c =? 19990 then 2 else if c =? 769 then 0 else 1.
+Definition up0 (c : Z) : list Z := [ascii_upper c].
+
+(* "ab\ncd" at width 10, cursor at the end; up goes to the end of "ab"; typing the wide character
+   there, backspace, home: texts, offsets, return values and signals are computed by the model *)
+Example run_somewhere :
+  let lay := [[SText 2 0 2; SHint 0 2]; [SText 2 3 5; SHint 0 5]] in
+  let s0 := init [] [97; 98; 10; 99; 100] None true false None VEdit in
+  let '(s, outs) := run cw0 up0 s0 [EKey KUp 10 lay; EKey (KText [19990]) 10 []; EKey KBackspace 10 [];
+                                    EKey KHome 10 lay; EKey KLeft 10 []; EKey (KText [102; 53]) 10 []] in
+  (text s, pos s, map (fun o => (pos (fst (fst o)), snd o, length (snd (fst o)))) outs)
+  = ([97; 98; 10; 99; 100], 0,
+     [(2, Ok RHandled, 0%nat); (3, Ok RHandled, 2%nat); (2, Ok RHandled, 2%nat);
+      (0, Ok RHandled, 0%nat); (0, Ok RUnhandled, 0%nat); (0, Ok RUnhandled, 0%nat)]).
+Proof. vm_compute. reflexivity. Qed.
+
+Example inv_somewhere : Inv (init [99; 58] [97; 19990; 98] (Some 2) true true None VEdit)
+                        /\ pos (init [99; 58] [97; 19990; 98] (Some 2) true true None VEdit) = 2.
+Proof. split; [apply init_inv|reflexivity]. Qed.
+
+(* clip mode, width 4, "abcdefgh" with the cursor at the end: the layout shows the end of the text
+   at column 8, the focused view at column 3 *)
+Example cursor_visible_somewhere :
+  let lay := [[SText 8 0 8; SHint 0 8]] in
+  let s := init [] [97; 98; 99; 100; 101; 102; 103; 104] None false false None VEdit in
+  find_row cw0 (disp s) lay (pos s + zlen (caption s)) 0 = Some (8, 0) /\
+  snd (get_cursor_coords cw0 s 4 lay) = (3, 0).
+Proof. vm_compute. split; reflexivity. Qed.
+
+(* a row [pad -1][text "a<wide>b" 4 columns] : the wide character (offset 1) owns the columns 0 and 1 *)
+Example cell_in_row_somewhere :
+  cell_in_row cw0 [97; 19990; 98] [SPad (-1); SText 4 0 3; SHint 0 3] 1 (-1) 1.
+Proof.
+  apply (CellInRow cw0 _ _ _ _ _ (-1) [] 4 0 3 [SHint 0 3] 19990).
+  - left. reflexivity.
+  - constructor.
+  - reflexivity.
+  - split; [split|]; discriminate || (intro; discriminate) || idtac; cbv; intuition discriminate.
+  - intros i Hi.
+    assert (i = 0 \/ i = 1 \/ i = 2) as [->|[->|->]] by (destruct Hi as [A B]; clear -A B;
+      destruct i as [|q|q]; [auto| |exfalso; apply A; reflexivity];
+      destruct q as [q|q|]; [destruct q; try (exfalso; apply B; reflexivity)|destruct q; try (exfalso; apply B; reflexivity)|]; auto).
+    + exists 97. split; [reflexivity|discriminate].
+    + exists 19990. split; [reflexivity|discriminate].
+    + exists 98. split; [reflexivity|discriminate].
+  - reflexivity.
+  - reflexivity.
+  - reflexivity.
+Qed.
+
+Example click_somewhere :
+  calc_pos cw0 [97; 19990; 98] [[SPad (-1); SText 4 0 3; SHint 0 3]] (PInt 1) 0 = Ok 1
+  /\ calc_pos cw0 [97; 19990; 98] [[SPad (-1); SText 4 0 3; SHint 0 3]] (PInt 0) 0 = Ok 1
+  /\ calc_pos cw0 [97; 19990; 98] [[SPad (-1); SText 4 0 3; SHint 0 3]] (PInt 2) 0 = Ok 2.
+Proof. vm_compute. repeat split; reflexivity. Qed.
+
+(* numeric: "-12" in an IntegerEdit(base 10, negatives): a digit in front of the minus is refused, a
+   zero typed at offset 1 is accepted and trimmed at once, the invariant's hypotheses hold *)
+Example numeric_somewhere :
+  let s0 := init [] [45; 49; 50] (Some 0) false false None (integer_variant 10 true) in
+  num_ok (num_alpha (takez 10 ALLOWED)) true (text s0) = true /\
+  let '(s, outs) := run cw0 up0 s0 [EKey (KText [53]) 9 []; EKey KRight 9 []; EKey (KText [97]) 9 [];
+                                    EKey (KText [55]) 9 []] in
+  (text s, pos s, map snd outs) = ([45; 55; 49; 50], 2, [Ok RUnhandled; Ok RHandled; Ok RUnhandled; Ok RHandled]).
+Proof. vm_compute. split; reflexivity. Qed.
